@@ -1,7 +1,10 @@
 package c09
 
 import (
+	"bytes"
 	"fmt"
+	"io"
+	"strings"
 	"time"
 )
 
@@ -29,3 +32,12 @@ func unixOfAddr(t time.Time) int64         { return (&t).Unix() / 1000 }
 func sliceOfDeref(p *[]int) []int          { return (*p)[:] }
 func assignDeref(p *int)                   { *p = *p + 1 }
 func assignIndexed(xs []int, f func() int) { xs[0] = xs[0] + f() }
+
+// A template that is looser than the pattern it replaces, inside a context that binds tighter, and an operand
+// copied in front of a selector.
+func joinSliced(a, b string) string         { return strings.Join([]string{a, b}, "")[1:] }
+func joinGlueIndexed(a, b, g string) byte   { return strings.Join([]string{a, b}, g)[0] }
+func sprintConcatSliced(a, b string) string { return fmt.Sprint(a + b)[1:] }
+func writeThroughDeref(pw **bytes.Buffer, s string) {
+	io.WriteString(*pw, s)
+}
